@@ -14,6 +14,7 @@ C15 — executable model of the lexical layer of the KIP parsers (rs/anda_kip):
   comments, repeated until nothing is skipped.
 * `classify`        = which family's head keyword starts the text (`ws(word(HEAD))` in
   kql.rs / kml.rs / meta.rs): `tag_no_case` + `word_boundary`.
+* `matchWords`      = `words(&[..])` with `trivia1` between the words (parser/common.rs).
 
 No imports outside `AndaVerif.Model`/`AndaVerif.Gen` (core Lean only).
 -/
@@ -318,6 +319,43 @@ def matchWord (uni : Char → Bool) (kw s : List Char) : Bool :=
   match matchKeyword kw s with
   | some rest => wordBoundary uni rest
   | none => false
+
+/-! ## Multi-word keywords (`words(&["ORDER", "BY"])`, common.rs)
+
+Between two words `trivia1` must succeed: at least one whitespace character
+(`take_while1(char::is_whitespace)` — the same class `skip_ws_and_comments` uses; before commit
+b2b3330 this was `multispace1`, i.e. space / tab / CR / LF only), or a `//` ahead; then
+`skip_ws_and_comments`. -/
+
+/-- `trivia1`. -/
+def trivia1 : List Char → Option (List Char)
+  | [] => none
+  | c :: rest =>
+    if isWhitespace c then some (skipTrivia (rest.dropWhile isWhitespace))
+    else if c == '/' then
+      match rest with
+      | c2 :: _ => if c2 == '/' then some (skipTrivia (c :: rest)) else none
+      | [] => none
+    else none
+
+/-- the words after the first: `trivia1`, `tag_no_case(w)`, …, finally `word_boundary` -/
+def matchWordsTail (uni : Char → Bool) : List (List Char) → List Char → Bool
+  | [], s => wordBoundary uni s
+  | w :: ws, s =>
+    match trivia1 s with
+    | none => false
+    | some r =>
+      match matchKeyword w r with
+      | none => false
+      | some r2 => matchWordsTail uni ws r2
+
+/-- `words(kws)` succeeds at the start of `s`. -/
+def matchWords (uni : Char → Bool) : List (List Char) → List Char → Bool
+  | [], s => wordBoundary uni s
+  | w :: ws, s =>
+    match matchKeyword w s with
+    | none => false
+    | some r => matchWordsTail uni ws r
 
 /-- The head-keyword table, in `parse_kip`'s `alt` order. -/
 def headTable : List (Family × List Char) :=
